@@ -547,7 +547,12 @@ func runC17Concurrent(c c17Case) kit.Result {
 		res.Err = err
 		return res
 	}
-	defer w.Close()
+	abandon := false // closing waits for open transactions: a database with stuck goroutines is abandoned
+	defer func() {
+		if !abandon {
+			w.Close()
+		}
+	}()
 	gen := 1
 	if err := writeGeneration(w, c.Entities, gen, true); err != nil {
 		res.Err = fmt.Errorf("setup: %v", err)
@@ -694,6 +699,7 @@ func runC17Concurrent(c c17Case) kit.Result {
 	select {
 	case <-doneCh:
 	case <-time.After(60 * time.Second):
+		abandon = true
 		res.Err = fmt.Errorf("goroutines did not finish within 60 s (inconclusive: possible deadlock)\nlog:\n%s", strings.Join(history, "\n"))
 		return res
 	}
